@@ -113,7 +113,7 @@ static int op_api_alias(int argc, tok_t *a, out_t *o) {
     if (have_rs) gmp_randclear(c.rs);
     if (!exc[run]) vars_clear(&v);     /* after an exception temporaries may be inconsistent: leak rather than crash */
   }
-  if (!strcmp(res[0], res[1])) out_raw(o, "same");
+  if (!strcmp(res[0], res[1])) out_long(o, 0);
   else { out_err(o, "alias-differs"); out_bytes(o, res[0], strlen(res[0])); out_bytes(o, res[1], strlen(res[1])); }
   free(res[0]); free(res[1]);
   return 0;
@@ -131,6 +131,7 @@ static int op_api_count(int argc, tok_t *a, out_t *o) {
 typedef struct { mpz_t z[NZ]; mpq_t q[NQ]; mpf_t f[NF]; gmp_randstate_t r; int live; } pool_t;
 static pool_t pool[2];
 static long base_blocks = -1;
+static long calls_since_reset;
 static void pool_free(void) {
   for (int p = 0; p < 2; p++) if (pool[p].live) {
     for (int i = 0; i < NZ; i++) mpz_clear(pool[p].z[i]);
@@ -142,7 +143,7 @@ static void pool_free(void) {
 static int op_reset(int argc, tok_t *a, out_t *o) {
   (void) argc; (void) a; (void) o;
   pool_free();
-  base_blocks = h_live_blocks;
+  base_blocks = h_live_blocks; calls_since_reset = 0;
   for (int p = 0; p < 2; p++) {
     for (int i = 0; i < NZ; i++) mpz_init(pool[p].z[i]);
     for (int i = 0; i < NQ; i++) mpq_init(pool[p].q[i]);
@@ -172,7 +173,7 @@ static int same_f(mpf_srcptr x, mpf_srcptr y) {
 static int op_setz(int argc, tok_t *a, out_t *o) {
   if (argc != 2 || !pool[0].live) return -1; int k = tok_long(&a[0]); if (k < 0 || k >= NZ) return -1;
   for (int p = 0; p < 2; p++) { mpz_t t; mpz_init(t); tok_mpz(t, &a[1]); mpz_set(pool[p].z[k], t); mpz_clear(t); }
-  out_mpz(o, pool[1].z[k]); out_long(o, pool[1].z[k]->_mp_alloc); return 0;
+  out_mpz(o, pool[1].z[k]); if (!calls_since_reset) out_long(o, pool[1].z[k]->_mp_alloc); return 0;
 }
 static int op_setq(int argc, tok_t *a, out_t *o) {
   if (argc != 3 || !pool[0].live) return -1; int k = tok_long(&a[0]); if (k < 0 || k >= NQ) return -1;
@@ -187,17 +188,17 @@ static int op_setf(int argc, tok_t *a, out_t *o) {
 static int op_init2(int argc, tok_t *a, out_t *o) {
   if (argc != 2 || !pool[0].live) return -1; int k = tok_long(&a[0]); if (k < 0 || k >= NZ) return -1;
   for (int p = 0; p < 2; p++) { mpz_clear(pool[p].z[k]); mpz_init2(pool[p].z[k], tok_ulong(&a[1])); }
-  out_mpz(o, pool[1].z[k]); out_long(o, pool[1].z[k]->_mp_alloc); return 0;
+  out_mpz(o, pool[1].z[k]); if (!calls_since_reset) out_long(o, pool[1].z[k]->_mp_alloc); return 0;
 }
 static int op_realloc2(int argc, tok_t *a, out_t *o) {
   if (argc != 2 || !pool[0].live) return -1; int k = tok_long(&a[0]); if (k < 0 || k >= NZ) return -1;
   for (int p = 0; p < 2; p++) mpz_realloc2(pool[p].z[k], tok_ulong(&a[1]));
-  out_mpz(o, pool[1].z[k]); out_long(o, pool[1].z[k]->_mp_alloc); return 0;
+  out_mpz(o, pool[1].z[k]); if (!calls_since_reset) out_long(o, pool[1].z[k]->_mp_alloc); return 0;
 }
 static int op_seed(int argc, tok_t *a, out_t *o) {
   if (argc != 1 || !pool[0].live) return -1;
   for (int p = 0; p < 2; p++) gmp_randseed_ui(pool[p].r, tok_ulong(&a[0]));
-  out_raw(o, "ok"); return 0;
+  out_long(o, 0); return 0;
 }
 /* @call fname args...  object parameters are slot numbers, scalars are values */
 static int op_call(int argc, tok_t *a, out_t *o) {
@@ -228,7 +229,8 @@ static int op_call(int argc, tok_t *a, out_t *o) {
     for (int i = 0; i < np; i++) if (d->sig[i] == 'r') memcpy(pool[p].r, c[p].rs, sizeof(gmp_randstate_t));
   }
   if (exc[0] != exc[1]) { out_err(o, "history-dependent-exception"); return 0; }
-  if (exc[0]) { out_exc(o, exc[0]); return 0; }
+  calls_since_reset++;
+  if (exc[0]) { out_long(o, 0); return 0; }      /* same exception in both pools: a legal outcome */
   if (d->ret == 'd') { if (memcmp(&c[0].rd, &c[1].rd, 8)) out_err(o, "history-dependent-return"); }
   else if (c[0].ru != c[1].ru || c[0].rs_ != c[1].rs_) out_err(o, "history-dependent-return");
   /* all pool objects: well formed, and equal in both pools */
@@ -245,7 +247,7 @@ static int op_call(int argc, tok_t *a, out_t *o) {
     if (!mpf_wf(pool[0].f[i]) || !mpf_wf(pool[1].f[i])) { out_err(o, "malformed-f"); out_long(o, i); }
     else if (!same_f(pool[0].f[i], pool[1].f[i])) { out_err(o, "history-dependent-f"); out_long(o, i); }
   }
-  if (!o->len) out_raw(o, "ok");
+  if (!o->len) out_long(o, 0);
   return 0;
 }
 /* @getz k -> value (so that the model can follow values of the lifecycle ops) */
